@@ -1041,6 +1041,94 @@ pub fn inv(x: u64) -> (r: u64)
     /*@@body*/
 }
 
+// ---- roots of unity ------------------------------------------------------------------------------------
+pub const ROOT: u64 = /*@@expr source="math/src/field/f62/mod.rs" anchor="const G: u64 ="*/;
+
+pub open spec fn pow_sq(b: int, e: nat) -> int
+    decreases e
+{
+    if e == 0 { 1 } else {
+        let h = pow_sq(b, e / 2);
+        if e % 2 == 0 { (h * h) % P } else { (((h * h) % P) * b) % P }
+    }
+}
+
+/// square-and-multiply equals the linear power (so that constants can be evaluated by `compute`)
+proof fn lemma_pow_sq(b: int, e: nat)
+    requires 0 <= b < P
+    ensures pow_sq(b, e) == powm(b, e)
+    decreases e
+{
+    if e == 0 {
+        reveal_with_fuel(powm, 1);
+    } else {
+        let h = e / 2;
+        lemma_pow_sq(b, h);
+        lemma_powm_add(b, h, h);
+        lemma_powm_range(b, h + h);
+        if e % 2 == 1 {
+            lemma_powm_add(b, h + h, 1);
+            lemma_powm_one(b);
+        }
+    }
+}
+
+proof fn lemma_shl_pow2(k: u32)
+    requires k < 64
+    ensures (1u64 << k) == vstd::arithmetic::power2::pow2(k as nat)
+    decreases k
+{
+    if k == 0 {
+        assert(1u64 << 0u32 == 1) by (bit_vector);
+        vstd::arithmetic::power2::lemma2_to64();
+    } else {
+        let j = (k - 1) as u32;
+        lemma_shl_pow2(j);
+        assert((1u64 << ((j + 1) as u32)) == 2 * (1u64 << j)) by (bit_vector) requires j < 63;
+        vstd::arithmetic::power2::lemma_pow2_unfold(k as nat);
+    }
+}
+
+impl BaseElement {
+    pub const TWO_ADICITY: u32 = /*@@expr source="math/src/field/f62/mod.rs" anchor="const TWO_ADICITY: u32 ="*/;
+
+    /// StarkField::get_root_of_unity (default method, 62-bit instantiation): for every admissible n the result has
+    /// multiplicative order exactly 2^n
+    //@@ source math/src/field/traits.rs
+    //@@ extract anchor="fn get_root_of_unity(n: u32) -> Self"
+    //@@ rewrite "Self::PositiveInteger::from(1u32)" => "1u64"
+    //@@ rewrite "Self::TWO_ADIC_ROOT_OF_UNITY" => "Self::new(ROOT)"
+    //@@ rewrite-re "assert!\(([^,]+),[^;]*\);" => "assert(\1);"
+    pub fn get_root_of_unity(n: u32) -> (r: Self)
+        requires n != 0, n <= BaseElement::TWO_ADICITY
+        ensures
+            wf(r),
+            powm(v(r), (1u64 << n) as nat) == 1,
+            powm(v(r), (1u64 << ((n - 1) as u32)) as nat) == P - 1,
+    {
+        let ghost a: nat = (1u64 << ((BaseElement::TWO_ADICITY - n) as u32)) as nat;
+        proof {
+            lemma_consts();
+            assert(BaseElement::TWO_ADICITY == 39 && ROOT as int == 4421547261963328785int) by (compute);
+            assert(0 <= ROOT as int && (ROOT as int) < P) by (compute);
+            lemma_small_mod(ROOT as nat, P as nat);
+            let g = ROOT as int;
+            assert(pow_sq(ROOT as int, 0x8000000000nat) == 1) by (compute);
+            assert(pow_sq(ROOT as int, 0x4000000000nat) == P - 1) by (compute);
+            lemma_pow_sq(g, 0x8000000000nat);
+            lemma_pow_sq(g, 0x4000000000nat);
+            lemma_shl_pow2((39 - n) as u32); lemma_shl_pow2(n); lemma_shl_pow2((n - 1) as u32);
+            vstd::arithmetic::power2::lemma_pow2_adds((39 - n) as nat, n as nat);
+            vstd::arithmetic::power2::lemma_pow2_adds((39 - n) as nat, (n - 1) as nat);
+            vstd::arithmetic::power2::lemma2_to64(); vstd::arithmetic::power2::lemma2_to64_rest();
+            assert(vstd::arithmetic::power2::pow2(39) == 0x8000000000 && vstd::arithmetic::power2::pow2(38) == 0x4000000000);
+            lemma_powm_pow(g, a, (1u64 << n) as nat);
+            lemma_powm_pow(g, a, (1u64 << ((n - 1) as u32)) as nat);
+        }
+        /*@@body*/
+    }
+}
+
 proof fn f62_canary_must_fail()
     ensures redc(5) == 5
 {
